@@ -120,6 +120,7 @@ type Interp struct {
 	curInstr string
 	harnessPkg *ssa.Package
 	crcCalls []crcCall // checksum computations seen so far (C19)
+	casDelta map[string]*Term // ghost: interference applied at compare-and-swap operations, per cell
 	realKeys bool
 	recTag   string
 	firstRecObj int
@@ -556,7 +557,12 @@ func mergeEnvs(gs []*Term, envs []Env) Env {
 
 func (in *Interp) isHarnessFn(fn *ssa.Function) bool {
 	if fn.Pkg == nil {
-		return false
+		// an instantiation of a generic function belongs to no package: decided by its origin
+		if o := fn.Origin(); o != nil && o.Pkg != nil {
+			fn = o
+		} else {
+			return false
+		}
 	}
 	p := in.prog.Fset.Position(fn.Pos())
 	return strings.Contains(p.Filename, "zz_verif")
@@ -836,7 +842,7 @@ func (a *Act) load(p PtrV) Value {
 func (a *Act) store(p PtrV, v Value) {
 	a.mayPanic(p.nilG, "nil dereference (store)")
 	a.record(p, true, a.atomicOp)
-	if len(a.in.guarded) > 0 && !a.in.isHarnessFn(a.fn) {
+	if len(a.in.guarded) > 0 && !a.in.isHarnessFn(a.fn) && !a.atomicOp {
 		for _, al := range p.alts {
 			for _, gc := range a.in.guarded {
 				if gc.obj == al.obj && gc.path == fmt.Sprint(al.path) {
